@@ -1862,7 +1862,8 @@ moreData:
 		}
 		if kind == kindHTTP {
 			if len(msg.Args) == 0 {
-				return nil, errInvalidHTTP
+				err = errInvalidHTTP
+				break
 			}
 			msgs = append(msgs, msg)
 		} else if len(args) > 0 {
